@@ -64,6 +64,10 @@ def granted(flags, need):
     return bool(flags & need)
 
 
+# operations on ONE live key object (Ed25519 primary + Ed25519 subkey + Curve25519 subkey): uses interleaved with newer self-signatures
+LIVE_MENU = ['sign', 'encrypt', 'primary-CS', 'primary-C', 'sub0-S', 'sub0-A', 'sub1-E', 'sub1-A']
+
+
 class Prop(object):
     ID = 'C16'
     LEVEL = 'model_checking'
@@ -96,6 +100,8 @@ class Prop(object):
             u.append(('newer', {'old': a}))
         u.append(('users', {}))
         u.append(('preconditions', {}))
+        for first in LIVE_MENU:
+            u.append(('live', {'first': first, 'depth': 3 if tier == 'quick' else 4}))
         return u
 
     def run_case(self, check, case):
@@ -203,6 +209,82 @@ class Prop(object):
                         # enforcement off only matters when no component is capable: with a capable component present that one is to be used
                         r.viol('policy', dict(t, kind='capable-component-bypassed'), one,
                                '%s: with flag enforcement disabled %s was performed by component %d although component(s) %r are granted the capability' % (label, op, idx, explicit))
+
+    def c_live(self, case):
+        """Every sequence (up to the depth bound) of uses (sign, encrypt) and newer self-signatures (re-certification of the identity, re-binding of a
+        subkey, each granting or withdrawing a capability) on one live key object: which component acts is decided by the most recent self-signatures at
+        the time of the use, whatever was done or asked before."""
+        import itertools
+        import pgpy
+        from pgpy.constants import KeyFlags, HashAlgorithm, SymmetricKeyAlgorithm, CompressionAlgorithm
+        r = Res()
+        if case.get('only'):
+            seqs = [tuple(case['only'])]
+        else:
+            seqs = [(case['first'],) + t for k in range(0, case['depth']) for t in itertools.product(LIVE_MENU, repeat=k)]
+        FL = {'CS': {KeyFlags.Certify, KeyFlags.Sign}, 'C': {KeyFlags.Certify}, 'S': {KeyFlags.Sign}, 'A': {KeyFlags.Authentication},
+              'E': {KeyFlags.EncryptCommunications, KeyFlags.EncryptStorage}}
+        for seq in seqs:
+            r.states += 1
+            key, praw = K.pgpy_cert('ed25519a', uid='Live <live@example.org>', usage=FL['C'], subkeys=[('ed25519c', FL['A']), ('cv25519a', FL['A'])])
+            raws = [praw, K.raw('ed25519c', K.T0), K.raw('cv25519a', K.T0)]
+            ids = [rkeys.keyid(x) for x in raws]
+            flags = ['C', 'A', 'A']
+            t = K.T0 + 500
+            for step, op in enumerate(seq):
+                r.transitions += 1
+                t += 100
+                viol = None
+                try:
+                    if op.startswith('primary-'):
+                        u = key.userids[0]
+                        u |= key.certify(u, created=K.dt(t), usage=FL[op[8:]], hash=HashAlgorithm.SHA256)
+                        flags[0] = op[8:]
+                    elif op.startswith('sub'):
+                        i = int(op[3])
+                        sk = list(key.subkeys.values())[i]
+                        sk |= key.bind(sk, created=K.dt(t), usage=FL[op[5:]], hash=HashAlgorithm.SHA256)
+                        flags[i + 1] = op[5:]
+                    elif op == 'sign':
+                        capable = [i for i in (0, 1) if 'S' in flags[i]]
+                        try:
+                            sig = key.sign(b'live usage', hash=HashAlgorithm.SHA256, created=K.dt(t))
+                            ps = rsig.parse_body(wire.read_packet(bytes(sig))['body'])
+                            who = ids.index(rsig.issuer(ps)[0])
+                            ok, why = rsig.verify(ps, {'doc': b'live usage'}, raws[who])
+                            if not capable:
+                                viol = 'signed (issuer: component %d) although no component is granted signing' % who
+                            elif who not in capable or not ok:
+                                viol = 'signature names component %d (verifies under it: %s); granted signing: %r' % (who, ok, capable)
+                        except pgpy.errors.PGPError as e:
+                            if capable:
+                                viol = 'refused (%r) although component(s) %r are granted signing' % (e, capable)
+                    else:
+                        capable = [2] if 'E' in flags[2] else []
+                        try:
+                            m = pgpy.PGPMessage.new(b'live usage', compression=CompressionAlgorithm.Uncompressed, format='b')
+                            e = key.pubkey.encrypt(m, cipher=SymmetricKeyAlgorithm.AES128)
+                            kid = rmsg.recognise(bytes(e))['esks'][0]['body'][1:9]
+                            if not capable:
+                                viol = 'encrypted (recipient id %s) although no component is granted encryption' % kid.hex()
+                            elif kid != ids[2]:
+                                viol = 'session-key packet names %s, the encryption subkey is %s' % (kid.hex(), ids[2].hex())
+                        except (pgpy.errors.PGPError, NotImplementedError) as e:
+                            if capable:
+                                viol = 'refused (%r) although the encryption subkey is granted encryption' % (e,)
+                    oc = 'ok' if viol is None else 'violation'
+                except A.HarnessBinding:
+                    raise
+                except Exception as e:
+                    oc, viol = 'exception', 'raised %r' % (e,)
+                r.outcomes['live:' + oc] += 1
+                if viol:
+                    r.viol('live', {'part': 'live', 'op': op.split('-')[0], 'kind': 'use-depends-on-history' if oc == 'violation' else 'exception'},
+                           {'only': list(seq[:step + 1]), 'depth': case['depth']},
+                           'history %s on one key object (flags now: primary %s, subkeys %s / %s): %s' % (list(seq[:step + 1]), flags[0], flags[1], flags[2], viol))
+                    break
+        r.samples.append({'history': list(seqs[-1]), 'menu': LIVE_MENU})
+        return r
 
     def c_configs(self, case):
         r = Res()
